@@ -237,20 +237,36 @@ func (lc *lintCtx) takesLock(fd *ast.FuncDecl, mu string) bool {
 	return lock && unlock
 }
 
-// lockedToEnd: some top-level statement is mu.Lock() immediately followed by defer mu.Unlock();
-// only simple statements without side effects on shared state may precede it when allowPrefix.
-func (lc *lintCtx) lockedToEnd(fd *ast.FuncDecl, mu string, allowPrefix bool) bool {
+// lockedToEnd: some top-level statement is X.Lock() or X.RLock() immediately followed by the
+// matching deferred unlock, whatever the mutex is called and whichever type owns it; only simple
+// statements may precede it, and only when allowPrefix.  Returns the mutex expression and whether
+// it is the read lock.
+func (lc *lintCtx) lockedToEnd(fd *ast.FuncDecl, allowPrefix bool) (mu string, read, ok bool) {
 	for i, st := range fd.Body.List {
-		if es, ok := st.(*ast.ExprStmt); ok && lc.isCallTo(es.X, mu+".Lock") {
-			if i+1 < len(fd.Body.List) {
-				if ds, ok := fd.Body.List[i+1].(*ast.DeferStmt); ok && strings.HasSuffix(lc.src(ds.Call.Fun), mu+".Unlock") {
-					return i == 0 || allowPrefix
+		es, isExpr := st.(*ast.ExprStmt)
+		if !isExpr {
+			continue
+		}
+		call, isCall := es.X.(*ast.CallExpr)
+		if !isCall {
+			continue
+		}
+		sel, isSel := call.Fun.(*ast.SelectorExpr)
+		if !isSel || (sel.Sel.Name != "Lock" && sel.Sel.Name != "RLock") {
+			continue
+		}
+		mu, read = lc.src(sel.X), sel.Sel.Name == "RLock"
+		if i+1 < len(fd.Body.List) {
+			if ds, isDefer := fd.Body.List[i+1].(*ast.DeferStmt); isDefer {
+				if us, isSel := ds.Call.Fun.(*ast.SelectorExpr); isSel && lc.src(us.X) == mu &&
+					(us.Sel.Name == "Unlock" && !read || us.Sel.Name == "RUnlock" && read) {
+					return mu, read, i == 0 || allowPrefix
 				}
 			}
-			return false
 		}
+		return mu, read, false
 	}
-	return false
+	return "", false, false
 }
 
 // runLint returns the broken ties; notes go to the evidence.
@@ -259,21 +275,28 @@ func runLint(c *Ctx) []tie {
 	if p := lc.load(c.Repo, "syncer"); p != nil {
 		lc.lintRunPeer(p)
 		lc.lintPeerCap(p)
-		for _, name := range []string{"acquireInflight", "releaseInflight"} {
-			fd := p.method("Syncer", name)
-			if fd == nil {
-				lc.notef("syncer.(*Syncer).%s not found in the package", name)
-			} else if !lc.lockedToEnd(fd, "inflightMu", true) {
-				lc.tief("slots", "syncer-subnet-counter-region", "syncer.(*Syncer).%s no longer reads and writes the subnet counter in one region under inflightMu (Lock immediately followed by defer Unlock); the model takes it as one atomic step", name)
-			}
-		}
 		lc.lintClose(p, "syncer", "Syncer")
 	}
 	if p := lc.load(c.Repo, "threadgroup"); p != nil {
 		if fd := p.method("ThreadGroup", "Add"); fd == nil {
 			lc.notef("threadgroup.(*ThreadGroup).Add not found")
-		} else if !lc.lockedToEnd(fd, "mu", false) {
-			lc.tief("threadgroup", "threadgroup-add-region", "ThreadGroup.Add no longer tests the closed channel and increments the WaitGroup in one region under tg.mu")
+		} else if mu, read, ok := lc.lockedToEnd(fd, false); !ok {
+			lc.tief("threadgroup", "threadgroup-add-region", "ThreadGroup.Add no longer tests the closed channel and increments the WaitGroup in one region under the group's mutex (the lock is not its first statement, or is not held to the end)")
+		} else if read {
+			// any number of Adds may share the read lock as long as Stop closes under the WRITE lock
+			stop := p.method("ThreadGroup", "Stop")
+			if stop == nil {
+				lc.notef("threadgroup.(*ThreadGroup).Stop not found")
+			} else if !containsOutsideFuncLit(stop.Body, func(n ast.Node) bool {
+				call, ok := n.(*ast.CallExpr)
+				if !ok {
+					return false
+				}
+				sel, ok := call.Fun.(*ast.SelectorExpr)
+				return ok && sel.Sel.Name == "Lock" && lc.src(sel.X) == mu
+			}) {
+				lc.tief("threadgroup", "threadgroup-add-region", "ThreadGroup.Add runs under the read lock of %s but Stop does not take its write lock: an Add can overlap the close", mu)
+			}
 		}
 	}
 	if p := lc.load(c.Repo, "rhp/v4"); p != nil {
@@ -440,6 +463,7 @@ func (lc *lintCtx) lintRunPeer(p *pkg) {
 	}
 	acquired := false
 	var goStmt *ast.GoStmt
+	var acquireCall *ast.CallExpr // the subnet slot: `if !X(subnet) { give the per-peer slot back; continue }`
 	for _, st := range loop.Body.List {
 		if sel, ok := st.(*ast.SelectStmt); ok && !acquired {
 			for _, cl := range sel.Body.List {
@@ -457,6 +481,13 @@ func (lc *lintCtx) lintRunPeer(p *pkg) {
 		if gs, ok := st.(*ast.GoStmt); ok {
 			goStmt = gs
 			break
+		}
+		if is, ok := st.(*ast.IfStmt); ok && acquireCall == nil {
+			if u, ok := is.Cond.(*ast.UnaryExpr); ok && u.Op == token.NOT {
+				if call, ok := u.X.(*ast.CallExpr); ok {
+					acquireCall = call
+				}
+			}
 		}
 		ast.Inspect(st, func(n ast.Node) bool {
 			blk, ok := n.(*ast.BlockStmt)
@@ -507,7 +538,67 @@ func (lc *lintCtx) lintRunPeer(p *pkg) {
 		return
 	}
 	releasesPeer := func(n ast.Node) bool { return isRecvFrom(n, hch) }
-	releasesSub := func(n ast.Node) bool { return lc.isCallTo(n, "releaseInflight") }
+	// the release of the subnet slot: a call named like a release, or another method on the
+	// object the slot was acquired from (s.limiter.acquire / s.limiter.release), or a function of
+	// the package that decrements a counter
+	acqRecv := ""
+	if acquireCall != nil {
+		if sel, ok := acquireCall.Fun.(*ast.SelectorExpr); ok {
+			acqRecv = lc.src(sel.X)
+		}
+	}
+	var releaseCall *ast.CallExpr
+	releasesSub := func(n ast.Node) bool {
+		call, ok := n.(*ast.CallExpr)
+		if !ok {
+			return false
+		}
+		name, recv := "", ""
+		switch f := call.Fun.(type) {
+		case *ast.Ident:
+			name = f.Name
+		case *ast.SelectorExpr:
+			name, recv = f.Sel.Name, lc.src(f.X)
+		default:
+			return false
+		}
+		hit := strings.Contains(strings.ToLower(name), "release")
+		if !hit && acquireCall != nil && recv == acqRecv && recv != "s" && call != acquireCall && name != "Lock" && name != "Unlock" {
+			hit = true
+		}
+		if !hit {
+			if cd := p.callee(call); cd != nil && name != "done" && containsOutsideFuncLit(cd.Body, func(x ast.Node) bool {
+				id, ok := x.(*ast.IncDecStmt)
+				return ok && id.Tok == token.DEC
+			}) {
+				hit = true
+			}
+		}
+		if hit && releaseCall == nil {
+			releaseCall = call
+		}
+		return hit
+	}
+	defer func() {
+		// the two functions that move the subnet counter do so in one locked region each
+		for _, x := range []struct {
+			call *ast.CallExpr
+			name string
+		}{{acquireCall, "acquireInflight"}, {releaseCall, "releaseInflight"}} {
+			var cd *ast.FuncDecl
+			if x.call != nil {
+				cd = p.callee(x.call)
+			}
+			if cd == nil {
+				cd = p.method("Syncer", x.name)
+			}
+			if cd == nil {
+				lc.notef("syncer: the function that moves the subnet counter (%s) could not be resolved", x.name)
+			} else if _, _, ok := lc.lockedToEnd(cd, true); !ok {
+				lc.tief("slots", "syncer-subnet-counter-region", "syncer: %s no longer reads and writes the subnet counter in one locked region (Lock immediately followed by defer Unlock); the model takes it as one atomic step", cd.Name.Name)
+			}
+		}
+	}()
 	peerDeferred, subDeferred := false, false
 	for _, st := range body.List {
 		if ds, ok := st.(*ast.DeferStmt); ok {
@@ -530,7 +621,7 @@ func (lc *lintCtx) lintRunPeer(p *pkg) {
 				what = append(what, "`<-"+hch+"` (per-peer slot)")
 			}
 			if !subDeferred {
-				what = append(what, "releaseInflight (subnet slot)")
+				what = append(what, "the release of the subnet slot")
 			}
 			lc.tief("slots", "syncer-handler-defers-releases", "runPeer's handler can return at\n%s\nbefore %s is registered with defer: the slot would leak on that exit (thread group closed), in a syncer that is already shutting down -- not observable at run time", lc.src(st), strings.Join(what, " and "))
 			return
